@@ -135,7 +135,13 @@ class TreeConverter(ast.NodeVisitor):
     return ["Name", node.id]
 
   def visit_Constant(self, node):
-    return ["Const", node.value]
+    # Only allow constants that can be represented in JSON (not e.g. bytes, complex, Ellipsis,
+    # or an infinite float like 1e999).
+    value = node.value
+    if not (value is None or isinstance(value, (bool, int, str)) or
+            (isinstance(value, float) and value == value and abs(value) != float('inf'))):
+      raise SyntaxError("Unsupported constant at %s:%s" % (node.lineno, node.col_offset + 1))
+    return ["Const", value]
 
   visit_NameConstant = visit_Constant
 
